@@ -40,7 +40,8 @@ Definition decode (s : sys) (op a b : N) : result + action :=
   | 1 => inr (AClone a)
   | 2 => inr (ADrop a)
   | 3 => inr (ACast a (if b =? 0 then 0 else 1))
-  | 4 => match live_handle s a with
+  | 4 | 11 => (* 11: the same send inside a message larger than max_data_size (serialized twice by the implementation) *)
+         match live_handle s a with
          | Some hd =>
              match side_of b (h_ep hd) with
              | Some side => inr (ASend a b (other_end b side) (len (used s)))
@@ -70,7 +71,7 @@ Fixpoint run_ops (s : sys) (ops : list N) : list N :=
 Fixpoint well_formed (ops : list N) : bool :=
   match ops with
   | [] => true
-  | op :: a :: b :: rest => (op <=? 10) && (a <=? 1000) && (b <=? 1000) && well_formed rest
+  | op :: a :: b :: rest => (op <=? 11) && (a <=? 1000) && (b <=? 1000) && well_formed rest
   | _ => false
   end.
 
